@@ -141,6 +141,7 @@ Record party := mkParty {
   p_check : bool;           (* secureSession.checkPeerID *)
   p_expect : option N;      (* secureSession.remoteID as passed in: None = "" *)
   p_payload : nt;           (* what generateHandshakePayload produced *)
+  p_early : nt;             (* the payload put into message 1: NEmpty for every honest endpoint (runHandshake sends nil) *)
   p_fault : option fstage   (* the stage of runHandshake at which something panics, if any *)
 }.
 
@@ -193,10 +194,11 @@ Record hstate := mkHs { hs_sym : sym; hs_re : nt; hs_rs : option nt }.
 
 Definition msg := list nt.
 
-(* -> e   (payload nil) *)
+(* -> e   (payload nil; a malicious initiator may put anything there: the responder's stage 0
+   reads the message and ignores its payload) *)
 Definition write_m1 (p : party) : hstate * msg :=
   let s1 := mix_hash (init_sym (p_prologue p)) (NDhPub (p_e p)) in
-  let '(s2, c) := encrypt_and_hash s1 NEmpty in
+  let '(s2, c) := encrypt_and_hash s1 (p_early p) in
   (mkHs s2 NEmpty None, [NDhPub (p_e p); c]).
 
 Definition read_m1 (p : party) (m : msg) : option hstate :=
@@ -386,10 +388,15 @@ Inductive edit :=
 (* non-canonical but valid serializations of a public key: an unknown field appended, the two
    fields in the other order, the Type varint in non-minimal form *)
 Inductive alias := AUnknownField | AReordered | ANonMinimal.
-Inductive claim := ClKey (k : idk) | ClJunk | ClEmpty | ClAlias (k : idk) (a : alias).
+(* ClNoPayload: the whole handshake payload is the empty byte string (a remote that runs plain Noise XX
+   and sends no libp2p payload at all); ClNotProto: payload bytes that are not a protobuf message.
+   In both the signature choice is immaterial. *)
+Inductive claim := ClKey (k : idk) | ClJunk | ClEmpty | ClAlias (k : idk) (a : alias) | ClNoPayload | ClNotProto.
 Inductive smsg := SmGood | SmOtherStatic | SmNoPrefix.
 Inductive fsig := FsBy (k : idk) (m : smsg) | FsJunk | FsEmpty.
-Record forge := mkForge { f_init : bool; f_claim : claim; f_sig : fsig }.
+(* f_early: the forging INITIATOR additionally puts a payload into message 1 (where honest endpoints
+   send none): its own identity key with a good signature over its static key *)
+Record forge := mkForge { f_init : bool; f_claim : claim; f_sig : fsig; f_early : bool }.
 
 (* a fault: something panics inside one endpoint's runHandshake *)
 Record fault := mkFault { ft_init : bool; ft_stage : fstage }.
@@ -408,6 +415,7 @@ Definition forged_payload (f : forge) (s : N) : nt :=
   let k := match f_claim f with
            | ClKey k => NPub (idn k) | ClJunk => NJunk 910 | ClEmpty => NEmpty
            | ClAlias k a => NKeyBytes (alias_bytes a (idn k))
+           | ClNoPayload | ClNotProto => NEmpty
            end in
   let sg := match f_sig f with
             | FsBy k SmGood => NSig (idn k) (NCat PREFIX (NDhPub s)) 1
@@ -416,7 +424,11 @@ Definition forged_payload (f : forge) (s : N) : nt :=
             | FsJunk => NJunk 911
             | FsEmpty => NEmpty
             end in
-  NPayload k sg 7.
+  match f_claim f with
+  | ClNoPayload => NEmpty            (* zero-length payload: no identity key, no signature, no extensions *)
+  | ClNotProto => NJunk 912
+  | _ => NPayload k sg 7
+  end.
 
 (* the party of a side in session number [n] (fresh DH scalars per session) *)
 Definition party_of (initiator : bool) (sd : side) (f : option forge) (ft : option fstage) (n : N) : party :=
@@ -427,8 +439,12 @@ Definition party_of (initiator : bool) (sd : side) (f : option forge) (ft : opti
                          else honest_payload (idn (sd_id sd)) s 1 7
             | None => honest_payload (idn (sd_id sd)) s 1 7
             end in
+  let early := match f with
+               | Some fg => if initiator && f_init fg && f_early fg then honest_payload (idn (sd_id sd)) s 1 7 else NEmpty
+               | None => NEmpty
+               end in
   mkParty e s (prol_term (sd_prologue sd)) (check_peer_id initiator sd)
-          (match sd_expect sd with Some k => Some (idn k) | None => None end) pl ft.
+          (match sd_expect sd with Some k => Some (idn k) | None => None end) pl early ft.
 
 Definition replace_at (c : nat) (m : msg) (x : nt) : msg := firstn c m ++ x :: skipn (S c) m.
 
